@@ -31,6 +31,9 @@ def build_problem(desc, circular=False):
             pass
         np.random.seed(desc.get("np_seed", 0))
     p = Rec(desc["sequence"], constraints=cons, objectives=objs, logger=None)
+    if desc.get("space_window"):
+        # the problem works on a localized view of its mutation space (what the solver gives its local problems)
+        p.mutation_space = p.mutation_space.localized(tuple(desc["space_window"]))
     problems.apply_settings(p, desc.get("settings", {}))
     return p
 
@@ -58,7 +61,8 @@ def run_case(desc, op, fault_at=None, pre_ops=()):
     focus = [i for i in desc.get("focus", []) if i < len(p.constraints)]
     for i in focus:
         p.constraints[i].is_focus = True
-    line, answer, info = solverrec.run_recorded(p, op, seq0, rt, fault_at=fault_at, focus_handles=focus)
+    line, answer, info = solverrec.run_recorded(p, op, seq0, rt, fault_at=fault_at, focus_handles=focus,
+                                                space_window=desc.get("space_window"))
     r = dict(line=line, answer=answer, info=info, problem=p)
     if op == "resolve_filtered":
         r["no_model"] = True      # the filter argument is not part of the model: oracle only
